@@ -46,9 +46,11 @@ Fixpoint dh_abs (slack : Q) (dTs CPs dHs : list Q) : bool :=
   match dTs, CPs, dHs with
   | d :: r, c :: s, h :: t => near_abs (slack * (1 + Qabs d + Qabs c)) h (d * c) && dh_abs slack r s t
   | [], [], [] => true | _, _, _ => false end.
-Definition c05_table_b (touch : bool) (slack : Q) (hot cold : list view) (offset : Q) (t : ptab) : list Z :=
+Fixpoint noninc_b (l : list Q) : bool :=
+  match l with a :: ((b :: _) as t) => qleb b a && noninc_b t | _ => true end.
+Definition c05_table_b (strict touch : bool) (slack : Q) (hot cold : list view) (offset : Q) (t : ptab) : list Z :=
   if negb (c05_rows_b touch slack hot cold offset (pT t) (pHh t) (pHc t) (pHn t)) then [V_PROP_FALSE; 51%Z]
-  else if negb (desc_b (pT t)) then [V_PROP_FALSE; 52%Z]
+  else if negb (if strict then desc_b (pT t) else noninc_b (pT t)) then [V_PROP_FALSE; 52%Z]
   else if negb (match pT t, pdT t with t0 :: r, _ :: s => widths_abs slack t0 r s | [], [] => true | _, _ => false end) then [V_PROP_FALSE; 53%Z]
   else if negb (match pdT t, pCPh t, pdHh t with _ :: a, _ :: b, _ :: c => dh_abs slack a b c | _, _, _ => true end
                 && match pdT t, pCPc t, pdHc t with _ :: a, _ :: b, _ :: c => dh_abs slack a b c | _, _, _ => true end
@@ -64,9 +66,9 @@ Definition judge_c05_zone (xs : list sin) (slack0 : Q) (pt ptr : ptab) : list Z 
   let hr := hot_views real_view xs in let cr := cold_views real_view xs in
   let slack := Qred (slack0 * cpscale hs cs) in
   let qc := Qc_star hs cs in
-  match c05_table_b true slack hs cs qc pt with
+  match c05_table_b false true slack hs cs qc pt with
   | [0%Z] =>
-      match c05_table_b false slack hr cr qc ptr with
+      match c05_table_b false false slack hr cr qc ptr with
       | [0%Z] =>
           if near_abs (4 * slack) (Qh_of pt) (Qh_of ptr) && near_abs (4 * slack) (Qc_of pt) (Qc_of ptr)
              && near_abs (4 * slack) (Qr_of pt) (Qr_of ptr) then [V_AGREE] else [V_PROP_FALSE; 55%Z]
@@ -80,9 +82,9 @@ Definition judge_c05_zone (xs : list sin) (slack0 : Q) (pt ptr : ptab) : list Z 
 Definition judge_c05_cascade (hs cs hr cr : list view) (pt ptr : ptab) : list Z :=
   let slack := Qred (eps9 * dscale hs cs) in
   let qc := Qc_star hs cs in
-  match c05_table_b true slack hs cs qc pt with
+  match c05_table_b true true slack hs cs qc pt with
   | [0%Z] =>
-      match c05_table_b false slack hr cr qc ptr with
+      match c05_table_b true false slack hr cr qc ptr with
       | [0%Z] =>
           if near_abs (4 * slack) (Qh_of pt) (Qh_of ptr) && near_abs (4 * slack) (Qc_of pt) (Qc_of ptr)
              && near_abs (4 * slack) (Qr_of pt) (Qr_of ptr) && c01_b eps6 hs cs (Qh_of pt) (Qc_of pt) (Qr_of pt)
